@@ -251,6 +251,13 @@ pub fn compute_checksum(header: &WalFrameHeader, page_data: &[u8]) -> u64 {
 }
 
 pub fn validate_checksum(header: &WalFrameHeader, page_data: &[u8]) -> bool {
+    // The CRC of all-zero input is 0, so a region of zero bytes (a hole, a
+    // preallocated or zero-filled tail) would otherwise pass as a frame for
+    // page 0 of file 0. No written frame has an all-zero header: its salts are
+    // taken from the clock and its checksum covers them.
+    if header.as_bytes().iter().all(|&b| b == 0) {
+        return false;
+    }
     let computed = compute_checksum(header, page_data);
     computed == header.checksum
 }
